@@ -234,17 +234,19 @@ for fam, keep in (("NOP", []), ("SLEEP", []), ("LDC_IMM", []), ("LDC_RS", []), (
 
 for n in range(4):
     add("C10", f"c10_boundary_step_q{n}", f"c10::boundary_step($S, {n})", stubs=(STUB_MEM,))
+add("C10", "c10_request_appends_9", "c10::request_appends($S, 9)", tier="thorough")
 add("C10", "c10_request_appends_5", "c10::request_appends($S, 5)")
 
 STUB_STDOUT = [("crate::cpu::Cpu::send_stdout_message", "crate::harness::c14::ghost_send_stdout")]
-add("C14", "c14_sys_write", "c14::sys_write($S)", stubs=INSTR_STUBS + (STUB_STDOUT,), keep=["trapa"], unwind=11, timeout=1500)
+add("C14", "c14_sys_write", "c14::sys_write($S)", stubs=INSTR_STUBS + (STUB_STDOUT,), keep=["trapa"], unwind=11, timeout=1500, mem_gb=24)
 add("C14", "c14_sys_set_handler", "c14::sys_set_handler($S)", stubs=INSTR_STUBS + (STUB_STDOUT,), keep=["trapa"], unwind=11, timeout=1500)
-add("C14", "c14_sys_other", "c14::sys_other($S)", stubs=INSTR_STUBS + (STUB_STDOUT,), keep=["trapa"], unwind=11, timeout=1500)
+add("C14", "c14_sys_other", "c14::sys_other($S)", stubs=INSTR_STUBS + (STUB_STDOUT,), keep=["trapa"], unwind=11, timeout=1500, mem_gb=24)
 
 STUB_IOMSG = [("crate::bus::Bus::send_io_port_value", "crate::harness::c16::ghost_send_io_port_value")]
 add("C16", "c16_single_op", "c16::single_op($S)", stubs=(STUB_IOMSG,))
 for p in (1, 6, 11):
-    add("C16", f"c16_history3_port{p}", f"c16::history3($S, {p})", stubs=(STUB_IOMSG,), unwind=8, tier="quick" if p != 6 else "thorough")
+    add("C16", f"c16_history3_port{p}", f"c16::history3($S, {p}, 3)", stubs=(STUB_IOMSG,), unwind=8, tier="quick" if p != 6 else "thorough")
+    add("C16", f"c16_history5_port{p}", f"c16::history3($S, {p}, 5)", stubs=(STUB_IOMSG,), unwind=8, tier="thorough")
 
 STUB_IRQ = [("crate::cpu::interrupt_controller::InterruptController::request_interrupt", "crate::harness::c17::ghost_request_interrupt")]
 add("C17", "c17_update_step_64", "c17::update_step($S, 64)", stubs=(STUB_IRQ,), unwind=42, timeout=1500)
@@ -291,7 +293,11 @@ STUB_SOCK = [
     ("crate::bus::Bus::write", "crate::harness::c13::ghost_bus_write"),
     ("crate::bus::Bus::write_port", "crate::harness::c13::ghost_write_port"),
 ]
-add("C18", "c18_socket_lines", "c13::socket_lines($S)", stubs=(STUB_RUN, STUB_SOCK), unwind=14, native=False, timeout=3000, mem_gb=20)
+for nm, ks in (("badcmd_store", ("L_CMD_EXTRA", "L_U8", "L_EMPTY")), ("badnum_port", ("L_U8_BAD", "L_IOPORT", "L_EMPTY")),
+               ("pause_store", ("L_PAUSE", "L_U8", "L_EMPTY")), ("stop_port", ("L_STOP", "L_IOPORT", "L_EMPTY")),
+               ("unknown_store", ("L_UNKNOWN", "L_U8", "L_EMPTY")), ("store_port", ("L_U8", "L_IOPORT", "L_EMPTY"))):
+    add("C18", f"c18_two_lines_{nm}", "c13::socket_lines($S, " + ", ".join("c13::" + k for k in ks) + ", 2, 2)", stubs=(STUB_RUN, STUB_SOCK), unwind=14, native=False,
+        timeout=1800, mem_gb=24)
 
 STUB_ELF = [("crate::elf::read_elf", "crate::harness::c11::ghost_read_elf")]
 for v in (0, 1):
